@@ -1619,6 +1619,18 @@ func noCtxBefore(args []*InjectorArgument, n int) bool {
 	return vs.Forall(n, func(j int) bool { return !isContextType(args[j].Type) })
 }
 
+// Ghost: the one value injectContextArg references (the context argument's).
+var gCtxParam *InjectorParam
+
+//kvc:ghost (*Graph).injectContextArg before "existingContextArg.Param.Ref(false)"
+func ghostCtxExisting(existingContextArg *InjectorArgument) { gCtxParam = existingContextArg.Param }
+
+//kvc:ghost (*Graph).injectContextArg before "contextParam.Ref(false)"
+func ghostCtxNew(contextParam *InjectorParam) { gCtxParam = contextParam }
+
+//kvc:ghost (*Graph).injectContextArg before "if !g.hasAsyncProviders()"
+func ghostCtxNone() { gCtxParam = nil }
+
 // argParamsAreArgs: the values of injector arguments are marked as arguments.
 func argParamsAreArgs(injector *Injector) bool {
 	return vs.Forall(len(injector.Args), func(i int) bool { return injector.Args[i].Param.isArg })
@@ -1661,10 +1673,18 @@ func contract_Graph_injectContextArg(g *Graph, injector *Injector, metaData *Met
 	vs.Ensures("provider_values_untouched", vs.Implies(vs.Old(argParamsAreArgs(injector)), vs.ForallOldPtr(func(q *InjectorParam) bool {
 		return vs.Implies(!q.isArg, q.refCounter == vs.Old(q.refCounter) && q.withChannel == vs.Old(q.withChannel))
 	})))
+	// exact frame on values: only the context argument's value is touched (its reference count goes up by one)
+	vs.Ensures("only_the_context_value_is_touched", vs.ForallOldPtr(func(q *InjectorParam) bool {
+		return vs.Implies(q != gCtxParam, q.refCounter == vs.Old(q.refCounter) && q.withChannel == vs.Old(q.withChannel))
+	}))
+	vs.Ensures("context_value_referenced_once_more", vs.ForallOldPtr(func(q *InjectorParam) bool {
+		return vs.Implies(q == gCtxParam, q.refCounter == vs.Old(q.refCounter)+1 && vs.Implies(q.isArg, !q.withChannel) &&
+			vs.Implies(q.withChannel, vs.Old(q.withChannel)))
+	}))
 	vs.Ensures("import_tables_stay_nonnil", allImportTablesStayNonNil())
 	// the parameter list stays ready for the signature emitter
 	vs.Ensures("args_stay_ready", vs.Implies(vs.Old(argsHaveTypes(injector)), argsHaveTypes(injector) && injectorArgsReady(injector)))
-	vs.Modifies(injector.Args, injector.Params, vs.FieldOfAll(injector.Args[0].Param.refCounter), vs.FieldOfAll(injector.Args[0].Param.withChannel),
+	vs.Modifies(gCtxParam, injector.Args, injector.Params, vs.FieldOfAll(injector.Args[0].Param.refCounter), vs.FieldOfAll(injector.Args[0].Param.withChannel),
 		vs.FieldOfAll(metaData.Imports[""].IsUsed), metaData.Imports, varPool.vars)
 	vs.Allocates()
 	return
